@@ -34,9 +34,11 @@ func decodeKeyValuePair(b []byte) *keyValuePair {
 	l, n := binary.Varint(b)
 	b = b[n:]
 	key := string(b[:l])
+	value := make([]byte, len(b)-int(l))
+	copy(value, b[l:])
 	return &keyValuePair{
 		key:   key,
-		value: b[l:],
+		value: value,
 	}
 }
 
